@@ -1,6 +1,6 @@
 #!/usr/bin/env python3
 """confirm a seeded change made on top of a refactored baseline (neutral/<base>.diff) and store it under /verif/seeded/<name>/.
-usage: tools_confirm_seed_based.py <name> <property> <patch (diff -ru against the baseline)> <demo> "<needs>" <base diff relative to /verif>"""
+usage: tools_confirm_seed_based.py <name> <property> <patch (diff -ru against the baseline)> <demo> "<needs>" <base diff relative to /verif, or "" for HEAD>"""
 import json, os, shutil, subprocess, sys
 name, prop, patch, demo, needs, base = sys.argv[1:7]
 wt = f"/tmp/confirm_{name}"
@@ -11,7 +11,8 @@ def run(cmd, t=900):
     r = subprocess.run(cmd, cwd=wt, env=env, capture_output=True, text=True, timeout=t)
     return r.returncode, (r.stdout + r.stderr)[-400:]
 try:
-    subprocess.check_call(["git", "-C", wt, "apply", os.path.join("/verif", base)], stderr=subprocess.DEVNULL)
+    if base:
+        subprocess.check_call(["git", "-C", wt, "apply", os.path.join("/verif", base)], stderr=subprocess.DEVNULL)
     shutil.copy(demo, os.path.join(wt, "demo.py"))
     rc0, out0 = run(["timeout", "300", "/venv/bin/python", "demo.py"])
     r = subprocess.run(["patch", "-p0", "-s", "-i", os.path.abspath(patch)], cwd=wt, capture_output=True, text=True)
@@ -31,6 +32,9 @@ try:
                               "commands": ["git worktree add <scratch> HEAD", f"git apply /verif/{base}  (behaviour-preserving refactor = baseline)", "MPLBACKEND=Agg PYTHONPATH=<scratch> /venv/bin/python demo.py",
                                            "patch -p0 -i patch.diff", "MPLBACKEND=Agg PYTHONPATH=<scratch> /venv/bin/python demo.py", "/venv/bin/python -m pytest -q tests"]},
                 "demo_output_with_patch": out1[-300:]}
+        if not base:
+            del meta["base_diff"]
+            meta["confirmed"]["commands"] = [c for c in meta["confirmed"]["commands"] if not c.startswith("git apply")]
         json.dump(meta, open(os.path.join(d, "meta.json"), "w"), indent=1)
 finally:
     subprocess.run(["git", "-C", "/repo", "worktree", "remove", "--force", wt], capture_output=True)
